@@ -960,7 +960,7 @@ func (c *Ctx) fmtObligation(fname string, call *ssa.Call) {
 	case "fmt.Fprintf":
 		fmtArg = 1
 	default:
-		if sc.Name() == "e" && c.inModule(sc) && len(call.Call.Args) >= 4 {
+		if c.isFn(sc, "postscript", "Interpreter", "e") && len(call.Call.Args) >= 4 {
 			fmtArg = 2
 		}
 	}
